@@ -43,6 +43,13 @@ def version_le(a, b):
     return ta <= tb
 
 
+def avail_le(v, c):
+    """Is an algorithm that first appeared in release v available in the identified server?  A Dropbear pre-release (2020.79test1) is older than the release of the same number."""
+    if c.get('pre') and vt(v) is not None and vt(v) == vt(c['version']):
+        return False
+    return version_le(v, c['version'])
+
+
 def first_appeared(entry, prefix):
     """List of server versions of this product in the entry's first version field; [] if the entry has versions but none for the product; None if no version info."""
     v0 = entry[0][0] if entry[0] else None
@@ -106,6 +113,11 @@ def cases(tier, seed):
     for i, w in enumerate(['6.6', '7.4', '8.9', '9.9'] if tier == 'quick' else ['5.3', '6.6', '7.0', '7.4', '8.0', '8.9', '9.3', '9.9', '10.0']):
         for both in (True, False):
             cs.append({'seed': rng.randrange(1 << 30), 'product': 'OpenSSH', 'version': w, 'software': 'OpenSSH_%s' % w, 'profile': 'gex2048-both' if both else 'gex2048-one', 'render': 'json' if (i + both) % 2 else 'text'})
+    # Dropbear pre-releases ("testN") numbered exactly like a release in which something first appeared: older than that release
+    dv = vers['Dropbear SSH']
+    for i, w in enumerate(dv if tier == 'thorough' else [dv[(seed + j * 5) % len(dv)] for j in range(4)] + ['2020.79']):
+        for j, prof in enumerate(['weak', 'db'] if tier == 'thorough' else [['weak', 'db'][i % 2]]):
+            cs.append({'seed': rng.randrange(1 << 30), 'product': 'Dropbear SSH', 'version': w, 'software': 'dropbear_%stest%d' % (w, 1 + i % 3), 'pre': True, 'profile': prof, 'render': 'json' if (i + j) % 2 else 'text'})
     for i in range(n):
         if i % 6 == 5:
             prod, w, sw = others[(i // 6) % len(others)]
@@ -292,7 +304,7 @@ def check_doc(c, script, doc, text):
             elif not fa:
                 known = False
             else:
-                les = [version_le(v, c['version']) for v in fa]
+                les = [avail_le(v, c) for v in fa]
                 known = True if any(x is True for x in les) else None if any(x is None for x in les) else False
             if known is True and (cat, n) not in minus:
                 if any('regardless of server configuration' in t for t in notes_of.get((cat, n), [])):
@@ -321,7 +333,7 @@ def check_doc(c, script, doc, text):
         if not fa:
             viol.append(_v('C13/addition-without-version', 'an algorithm the database does not date for this product is recommended for addition', name=n, product=product))
         else:
-            les = [version_le(v, c['version']) for v in fa]
+            les = [avail_le(v, c) for v in fa]
             if all(x is False for x in les):
                 viol.append(_v('C13/addition-not-yet-available', 'an algorithm that first appeared after the identified version is recommended for addition', name=n, first_appeared=fa, version=c['version'], product=product))
     if plus & minus:
